@@ -141,6 +141,9 @@ pub struct Cluster {
     /// One-shot: the n-th next request for a LATER page of system.peers (one that carries
     /// a paging state) is answered by a connection reset instead of the page.
     pub reset_on_peers_page: Option<u32>,
+    /// Extra delay of every answer to a system.peers read (a slow table: the other reads
+    /// of a metadata fetch finish first).
+    pub system_peers_extra_delay: u64,
     pub schema_version: [u8; 16],
     /// Every statement id ever handed out (observer's knowledge, independent of eviction).
     pub all_ids: BTreeMap<Vec<u8>, String>,
@@ -174,6 +177,7 @@ impl Cluster {
             system_page_rows: 0,
             system_empty_pages: false,
             reset_on_peers_page: None,
+            system_peers_extra_delay: 0,
             schema_version: [7u8; 16],
             all_ids: BTreeMap::new(),
         }
@@ -1096,6 +1100,7 @@ fn system_query(
     delay: u64,
 ) {
     let conn = rq.conn;
+    let delay = if text.to_ascii_lowercase().contains("from system.peers") { delay + w.cluster.system_peers_extra_delay } else { delay };
     if w.now() < w.cluster.nodes[rq.node].system_queries_fail_until {
         w.probe("system_query_failed");
         w.respond_error(conn, rq.stream, err::SERVER_ERROR, "metadata subsystem unavailable", &[], delay);
